@@ -229,7 +229,18 @@ def gen_flight(rng, opts):
             fl['kind'] = 'valid-given-mass'
             fl['given'] = rng.choice([62000.0, 70000.0, 78000.0])
         return fl
-    if r < 0.58:
+    if r < 0.52:
+        # an explicit starting mass heavier than the heaviest table mass: refused in the first climb evaluation
+        o, d = rng.choice(VALID)
+        return {'kind': 'overweight-given-mass', 'o': o, 'd': d, 'lf': 1.0, 'table': rng.choice(TABLES[:2]),
+                'given': rng.choice([90000.0, 81371.0 * (1 + 1e-4)])}
+    if r < 0.55:
+        # a ceiling whose cruise level (ceiling - 7000 ft = FL430) lies above the top of the table (FL410):
+        # refused already at the take-off-mass estimate (aircraft_mass='max')
+        o, d = rng.choice(VALID)
+        return {'kind': 'cruise-level-above-table', 'o': o, 'd': d, 'lf': 1.0,
+                'table': {'tas': 1.0, 'rocd': 1.0, 'ff': 1.0, 'mass': 1.0, 'ceiling_ft': 50000, 'payload': 22422}}
+    if r < 0.60:
         o, d = rng.choice([('XXX', 'LAX'), ('BOS', 'ZZZ'), ('QQQ', 'QQQ')])
         return {'kind': 'unknown-airport', 'o': o, 'd': d, 'lf': 1.0, 'given': 70000.0 if rng.random() < 0.2 else None}
     if r < 0.70:
@@ -265,8 +276,14 @@ def gen_sequence(rng, weather_ok: bool):
         fl = gen_flight(rng, opts)
         fl['opts'] = opts
         flights.append(fl)
+        if fl['kind'] == 'overweight-given-mass' and rng.random() < 0.8:
+            # an ordinary flight right after a failed explicit-mass flight, with mass iteration that needs a correction
+            o2 = dict(opts, iterate=True, max_iters=8, reltol=rng.choice([1e-2, 1e-3]))
+            o, d = rng.choice(VALID)
+            flights[-1]['opts'] = o2
+            flights.append({'kind': 'valid', 'o': o, 'd': d, 'lf': 1.0, 'table': None, 'opts': o2})
     if not any(not fl['kind'].startswith('valid') for fl in flights):
-        flights[rng.randrange(n)] = {'kind': 'unknown-airport', 'o': 'XXX', 'd': 'LAX', 'lf': 1.0, 'opts': flights[0]['opts']}
+        flights[rng.randrange(len(flights))] = {'kind': 'unknown-airport', 'o': 'XXX', 'd': 'LAX', 'lf': 1.0, 'opts': flights[0]['opts']}
     if not flights[-1]['kind'].startswith('valid') and not use_weather:
         o, d = rng.choice(VALID)
         flights.append({'kind': 'valid', 'o': o, 'd': d, 'lf': 1.0, 'table': rng.choice(TABLES), 'opts': opts})
@@ -301,7 +318,11 @@ def coq_script(probe, fresh):
             its.append(f"(inl ({100 + j}%Z, {to_coq(it[1])}))")
         else:
             its.append(f"(inr ({it[1]})%Z)")
-    return f"(mkscript {ctor} [{'; '.join(its)}])"
+    # a refusal before the first _fly_iteration that is not the constructor's: calc_starting_mass itself
+    calc = 'None'
+    if probe is None and fresh['kind'] != 'flown' and not fresh['iters']:
+        calc = f"(Some ({fresh['code']})%Z)"
+    return f"(mkscript {ctor} {calc} [{'; '.join(its)}])"
 
 
 def normalise(seq):
